@@ -5,7 +5,8 @@ VERIF = os.path.dirname(os.path.dirname(os.path.abspath(__file__)))
 stream, name, src = sys.argv[1:4]
 r = json.load(open(src))
 rep = r.get("replay", r)
-case = rep.get("case", rep) if isinstance(rep, dict) else rep
+# spec verdicts wrap the case as {"stream", "seed", "observation", "case"}; harness violations carry the case itself
+case = rep["case"] if isinstance(rep, dict) and "stream" in rep and "case" in rep else rep
 d = os.path.join(VERIF, "corpus", stream)
 os.makedirs(d, exist_ok=True)
 out = {"found_as": r.get("sig"), "detail": str(r.get("detail"))[:300], "replay": case}
